@@ -326,6 +326,9 @@ const Op kOps[] = {
     OP("BIG.before_first / after_last (n-byte needle) ci", TGT_NONE, g_sink = f.BIG->before_first(f.x8->data(), ST::case_insensitive).size() + f.BIG->after_last(f.x8->data(), ST::case_insensitive).size()),
     OP("BIG.split / replace (n-byte needle) ci", TGT_NONE, g_sink = f.BIG->split(f.x8->data(), (size_t)-1, ST::case_insensitive).size() + f.BIG->replace(f.x8->data(), "<>", ST::case_insensitive).size()),
     OP("BIG.starts_with / ends_with / compare_i (n-byte text)", TGT_NONE, g_sink = f.BIG->starts_with(f.x8->data(), ST::case_insensitive) + f.BIG->ends_with(f.x8->data(), ST::case_insensitive) + (size_t)f.BIG->compare_i(f.x8->data())),
+    // floating-point renderings of 64+ characters (they need more than the formatter's in-object buffer)
+    OP("format long floating-point renderings", TGT_NONE, g_sink = ST::format("{.70e}|{f}|{.100f}", 1e100, 1e300, 2.5).size() + ST::string::from_double(-1e300, 'f').size()),
+    OP("SS << double with a long rendering", TGT_SS, *f.SS.obj << -1.7976931348623157e308),
     // formatted output into sinks that never allocate themselves (a FILE* over a fixed array, std streams over fixed arrays): every allocation
     // that fails is the library's own, and std::bad_alloc has to come out of ST::printf / ST::writef
     OP("ST::printf(FILE* over a fixed array)", TGT_NONE, static char area[1 << 16]; FILE *fp = fmemopen(area, sizeof area, "w"); if (fp) { setvbuf(fp, nullptr, _IONBF, 0);
@@ -351,7 +354,7 @@ bool in_family(int op) {
             {"C05", {"CB", "U16", "U32", "W ", "W.", "W=", "buffer", "allocate"}}, {"C06", {"compare", "hash", "upper", "lower", "=="}},
             {"C07", {"find", "contains", "starts_with", "ends_with", "BIG."}}, {"C08", {"substr", "left", "right", "trim", "before", "after"}},
             {"C09", {"split", "replace", "tokenize"}}, {"C10", {"format", "printf", "writef"}}, {"C11", {"format", "printf", "writef"}},
-            {"C12", {"from_int", "from_uint", "to_int", "unsigned long long", "format"}}, {"C13", {"double", "float", "format"}},
+            {"C12", {"from_int", "from_uint", "to_int", "unsigned long long", "format"}}, {"C13", {"double", "float", "format", "floating"}},
             {"C14", {"hex", "base64"}}, {"C15", {"hex", "base64"}}, {"C16", {"SS", "stream"}}, {"C17", {"printf", "writef", "format"}}, {"C18", {"decode", "latin", "+="}}};
         const char *e = getenv("VERIF_FAMILY");
         if (!e) return v;
@@ -408,46 +411,51 @@ uint64_t canary_digest() {
 }
 uint64_t g_canary = 0; bool g_have_canary = false;
 
-// Runs one instance: counting pass + one faulted run per allocation.  Returns "" or the violation (with the failing k in *kfail).
+// Runs one instance: the operation is run with its 1st, 2nd, 3rd ... allocation failing, each time on freshly built objects, until a run
+// completes without the fault being reached - that last run is the fault-free one.  There is no separate counting pass: the very first
+// execution of the operation in this process is already a faulted one, so allocations that happen only once per thread or process (a
+// scratch buffer that is kept for later calls) are failed as well.  Blocks that are still allocated after everything was destroyed count
+// as a leak only when the same run, repeated, leaves blocks behind AGAIN: storage that is acquired once and kept for reuse is not a leak.
+// Returns "" or the violation (with the failing k in *kfail).
 std::string run_instance(const Instance &in, long &N, long &pairs, long &nontrivial, long only_k, long *kfail) {
     const Op &op = kOps[in.op];
     if (!g_have_canary) { va::reset(); g_canary = canary_digest(); g_have_canary = true; if (canary_digest() != g_canary) return "the canary calls are not deterministic (harness)"; }
-    // counting pass (no fault)
-    {
-        va::reset();
-        Fixture f; f.build(kSizes[in.size_idx], in.t_long, in.a_long, in.ss_heap, in.ext, in.huge);
-        long before = va::scope_allocs();
-        try { va::LibScope l; op.run(f); }
-        catch (...) { return "the operation throws without any injected fault: " + verif::describe_current_exception(); }
-        N = va::scope_allocs() - before;
-        f.destroy();
-        if (const char *e = va::error()) { std::string r = e; va::clear_error(); return std::string("without fault: ") + r; }
-        if (va::live_blocks() != 0) return "without any fault the operation leaks " + verif::unum(va::live_blocks()) + " block(s)";
-    }
-    for (long k = 1; k <= N; k++) {
-        if (only_k && k != only_k) continue;
-        va::reset();
-        Fixture f; f.build(kSizes[in.size_idx], in.t_long, in.a_long, in.ss_heap, in.ext, in.huge);
-        bool got_bad_alloc = false; std::string other;
-        va::arm_fault(k);
-        try { va::LibScope l; op.run(f); }
-        catch (const std::bad_alloc &) { got_bad_alloc = true; }
-        catch (...) { other = verif::describe_current_exception(); }
-        bool fired = va::fault_fired();
-        va::arm_fault(0);
-        pairs++;
-        if (k > 1 || in.t_long) nontrivial++;
-        if (kfail) *kfail = k;
-        if (!other.empty()) return "allocation " + verif::num(k) + " of " + verif::num(N) + " failed and the caller received " + other + " instead of std::bad_alloc";
-        if (fired && !got_bad_alloc) return "allocation " + verif::num(k) + " of " + verif::num(N) + " failed but std::bad_alloc did not reach the caller (swallowed)";
-        if (!fired) continue;          // the re-run needed fewer allocations (cannot happen for a deterministic operation; be lenient)
-        std::string w = f.verify(op.target);
-        if (!w.empty()) return "allocation " + verif::num(k) + " of " + verif::num(N) + " failed: " + w;
-        w = f.reuse_and_destroy();
-        if (!w.empty()) return "allocation " + verif::num(k) + " of " + verif::num(N) + " failed: " + w;
-        if (canary_digest() != g_canary)
-            return "allocation " + verif::num(k) + " of " + verif::num(N) + " failed; afterwards a fixed set of unrelated calls (trim/tokenize/find/replace/split/format/conversions/codecs on fresh objects) "
-                   "returns results that differ from what it returned before any fault was injected: the failed operation left hidden state behind";
+    N = 0;
+    for (long k = only_k ? only_k : 1; k <= 400; k++) {
+        bool fired = false, completed = false; std::string verdict;
+        for (int attempt = 0; attempt < 2; attempt++) {       // attempt 1 only to tell a leak from storage kept for reuse
+            va::reset();
+            Fixture f; f.build(kSizes[in.size_idx], in.t_long, in.a_long, in.ss_heap, in.ext, in.huge);
+            bool got_bad_alloc = false; std::string other;
+            va::arm_fault(k);
+            try { va::LibScope l; op.run(f); completed = true; }
+            catch (const std::bad_alloc &) { got_bad_alloc = true; }
+            catch (...) { other = verif::describe_current_exception(); }
+            fired = va::fault_fired();
+            va::arm_fault(0);
+            if (kfail) *kfail = fired ? k : 0;
+            const std::string tag = fired ? "allocation " + verif::num(k) + " failed: " : "without any fault: ";
+            if (!other.empty()) { verdict = fired ? "allocation " + verif::num(k) + " failed and the caller received " + other + " instead of std::bad_alloc" : "the operation throws without any injected fault: " + other; break; }
+            if (fired && !got_bad_alloc) { verdict = "allocation " + verif::num(k) + " failed but std::bad_alloc did not reach the caller (swallowed)"; break; }
+            if (!fired && got_bad_alloc) { verdict = "the operation throws std::bad_alloc without any injected fault"; break; }
+            std::string w;
+            if (fired) { w = f.verify(op.target); if (w.empty()) w = f.reuse_and_destroy(); }
+            else { f.destroy(); if (const char *e = va::error()) { w = e; va::clear_error(); } }
+            const bool leak_only = !w.empty() && w.find("leak") != std::string::npos;
+            if (w.empty() && !fired && va::live_blocks() != 0) { w = "the operation leaks " + verif::unum(va::live_blocks()) + " block(s)"; }
+            const bool leftover = leak_only || (!fired && !w.empty() && w.find("leaks") != std::string::npos);
+            if (!w.empty() && leftover && attempt == 0) continue;      // repeat the identical run: kept-for-reuse storage does not show up a second time
+            if (!w.empty()) { verdict = tag + w + (leftover ? " (again when the same run was repeated)" : ""); break; }
+            if (fired && canary_digest() != g_canary) {
+                verdict = "allocation " + verif::num(k) + " failed; afterwards a fixed set of unrelated calls (trim/tokenize/find/replace/split/format/conversions/codecs on fresh objects) "
+                          "returns results that differ from what it returned before any fault was injected: the failed operation left hidden state behind";
+                break;
+            }
+            break;
+        }
+        if (fired) { pairs++; N = k; if (k > 1 || in.t_long) nontrivial++; }
+        if (!verdict.empty()) return verdict;
+        if (!fired || only_k) break;            // the fault was not reached: that was the complete, fault-free run
     }
     if (kfail) *kfail = 0;
     return std::string();
